@@ -228,10 +228,20 @@ def scenario(program, aborts, via, mode=None):
       # SIGINT is delivered on the main thread at any line of execute() (before the test is registered for it the
       # process-wide default handler raises KeyboardInterrupt)
       sched.signal_enabled = lambda: True
-      if mode == 'free':
+      if mode in ('free', 'second'):
         sched.signal_cost = 0
         sched.signal_enabled = lambda: _signal_filter_free(sched, sched.current)
       sched.signals_left = aborts
+      if mode == 'second':
+        # the same Test object has already been executed once (undisturbed) in this process: the Ctrl-C arrives during
+        # its second run
+        sched.signals_left = 0
+        first = test.execute(test_start=test_start)
+        runtime.vlog('first-run', first)
+        del recs[:]
+        del sched.events[:]
+        td.Test.HANDLED_SIGINT_ONCE = False
+        sched.signals_left = aborts
     res = None
     reexec = None
     OVER[0] = False
@@ -554,7 +564,8 @@ def configs(tier):
     return [(('plain3', 1, 'thread', 'wide'), 0), (('group', 1, 'thread', 'wide'), 0), (('trigger', 1, 'thread', 'wide'), 0),
             (('repeat', 1, 'thread', 'wide'), 0), (('subtest', 1, 'thread', 'wide'), 0),
             (('group', 1, 'thread', 'main'), 1), (('group', 2, 'thread', 'body'), 0), (('plain3', 1, 'sigint'), 1),
-            (('group', 2, 'sigint', 'free'), 0), (('group', 2, 'thread', 'tdgap'), 1), (('nested_td', 1, 'thread', 'wide'), 0), (('group_tdwait', 2, 'thread', 'body'), 0)]
+            (('group', 2, 'sigint', 'free'), 0), (('group', 2, 'thread', 'tdgap'), 1), (('nested_td', 1, 'thread', 'wide'), 0), (('group_tdwait', 2, 'thread', 'body'), 0),
+            (('group', 1, 'sigint', 'second'), 0)]
   return [(('plain3', 1, 'thread', 'all'), 1), (('group', 1, 'thread', 'all'), 1), (('trigger', 1, 'thread', 'all'), 1),
           (('repeat', 1, 'thread', 'all'), 1), (('subtest', 1, 'thread', 'all'), 1), (('group', 1, 'thread', 'body'), 2),
           (('group', 2, 'thread', 'wide'), 0), (('group', 2, 'thread', 'body'), 1), (('plain3', 2, 'thread', 'body'), 1),
